@@ -138,3 +138,25 @@ def _make_batch(k, scale, shapes, dask=True):
         b.add_tomogram(img, _Molecules(_generic_array((2, 3), 'real') + 2.0), image_id=i)
     return b
 """
+
+
+class TSeqOfArrays(TSpec):
+    """a sequence of N same-shaped arrays (e.g. a 4-d template stack iterated over its first axis), N symbolic:
+    modelled as an array with a symbolic leading axis"""
+
+    def __init__(self, ndim=3, count_name=None, min_n=1):
+        self.ndim, self.count_name, self.min_n = ndim, count_name, min_n
+
+    def fresh(self, name, path):
+        n = Sym(z3.Int(self.count_name or f"{name}_N"))
+        path.assume(n >= self.min_n)
+        shape = (n,) + tuple(Sym(z3.Int(f"{name}_shape_{i}")) for i in range(self.ndim))
+        for s_ in shape[1:]:
+            path.assume(s_ >= 1)
+        f = z3.Function(f"{name}_elem", *([z3.IntSort()] * (self.ndim + 1)), z3.RealSort())
+        return SArr(shape, lambda idx: Sym(f(*[V.lift(i) for i in idx])), "real")
+
+    def src(self, name, model):
+        n = max(int(_mget(model, self.count_name or f"{name}_N", 2)), self.min_n)
+        shape = tuple(int(_mget(model, f"{name}_shape_{i}", 5)) for i in range(self.ndim))
+        return f"_generic_array({(n,) + shape!r}, 'real')"
